@@ -770,6 +770,40 @@ class TermEngine:
             new = []
             if c[0] == "un" and c[1] == "Not":
                 new.append((c[2], "0" if truthy else ("not", ("0",)), None, d))
+            elif c[0] == "call" and CURRENT is not None and (c[1].local or getattr(c[1], "res_local", False)) and rounds < 24:
+                # a test of a private predicate helper (`fn is_stored_negated(x) { a(x) || b(x) || c(x) }`): knowing its
+                # value is knowing the value of its body with the arguments in place
+                try:
+                    hs = [h for h in CURRENT.resolve(c[1]) if h.kind != "Closure"]
+                except Exception:
+                    hs = []
+                if len(hs) == 1 and hs[0].terms is not self and hs[0].terms.ret is not None and \
+                        (hs[0].locals[0]["s"] if hs[0].locals else "") == "bool" and not hs[0].cfg.loop_headers:
+                    from . import canon as _canon
+                    hte = hs[0].terms
+                    from .base import strip as _strip
+                    body = _strip(hte.ret)
+                    ps = {i + 1: a for i, a in enumerate(c[2])}
+                    if isinstance(body, tuple) and body and body[0] == "phi":
+                        # a short-circuit chain returns through a join: the value pins the alternative, and the tests
+                        # that dominate that alternative inside the helper hold for the arguments
+                        cands = []
+                        for pb, alt in body[2]:
+                            if isinstance(alt, tuple) and alt and alt[0] == "const":
+                                if (str(alt[2]) in ("1", "true")) == truthy:
+                                    cands.append((pb, alt))
+                            else:
+                                cands.append((pb, alt))
+                        if len(cands) == 1:
+                            pb, alt = cands[0]
+                            pbn = int(str(pb).replace("bb", "")) if not isinstance(pb, int) else pb
+                            if not (isinstance(alt, tuple) and alt and alt[0] == "const") and not _canon.has_unknown(alt):
+                                new.append((_canon.subst(alt, ps), v, None, d))
+                            for (c2, v2, vm2, _d2) in hte.facts_at(pbn):
+                                if not _canon.has_unknown(c2):
+                                    new.append((_canon.subst(c2, ps), v2, vm2, d))
+                    elif not _canon.has_unknown(body):
+                        new.append((_canon.subst(body, ps), v, None, d))
             elif c[0] == "gamma" and len(c[2]) == 2:
                 cands = []
                 for lab, alt in c[2]:
@@ -901,11 +935,115 @@ def subterms(t):
 CURRENT = None    # the program being analysed (set by Program.__init__; read by base.match for on-demand expansion)
 
 
+def _forward_target(f):
+    """f (a function's fact entry) is a pure forwarder — its body hands its own parameters, in order and unchanged, to one
+    crate function and returns that call's result: the callee's path, else None"""
+    if f.get("kind") not in ("AssocFn", "Fn") or not f.get("blocks"):
+        return None
+    argc = f.get("argc", 0)
+    blocks = [b for b in f["blocks"] if not b.get("cleanup")]
+    calls = [b for b in blocks if b["term"]["k"] == "call"]
+    if len(calls) != 1 or any(b["term"]["k"] not in ("call", "return", "goto", "drop") for b in blocks):
+        return None
+    src = {}                                   # temp -> parameter it copies
+    for b in blocks:
+        for st in b["stmts"]:
+            if st["k"] != "assign":
+                continue
+            lhs, rv = st["lhs"], st["rv"]
+            if lhs["proj"]:
+                return None
+            if rv["k"] == "use" and rv["op"].get("k") in ("copy", "move") and not rv["op"]["place"]["proj"]:
+                l = rv["op"]["place"]["l"]
+                src[lhs["l"]] = src.get(l, l)
+            elif rv["k"] == "ref" and [p_.get("p") for p_ in rv["place"]["proj"]] == ["deref"]:
+                l = rv["place"]["l"]                # `&*self`: a reborrow of a reference parameter
+                src[lhs["l"]] = src.get(l, l)
+            else:
+                return None
+    t = calls[0]["term"]
+    fnr = t.get("fn") or {}
+    if not (fnr.get("local") or fnr.get("res_local")) or fnr.get("res_kind") not in ("Item", None) and not fnr.get("local"):
+        return None
+    args = t.get("args") or []
+    if len(args) != argc:
+        return None
+    for i, a in enumerate(args):
+        if a.get("k") not in ("copy", "move") or a["place"]["proj"]:
+            return None
+        l = a["place"]["l"]
+        if src.get(l, l) != i + 1:
+            return None
+    d = t.get("dest") or {}
+    if d.get("l") != 0 or d.get("proj"):
+        return None
+    return fnr.get("res") or fnr.get("def")
+
+
+def elide_forwarders(facts):
+    """Normalisation of the program model: `fn f(args) { self.g(args) }` with a private worker g that nothing else calls
+    is one function split in two for naming reasons (a recursive worker behind an entry point).  The worker takes the
+    entry point's name and the wrapper disappears, so that every rule sees the code under the name it anchors on —
+    recursion included.  Applied only when the split is unambiguous: g is called only from f and from itself (and its
+    closures), has the same number of parameters, lives under the same parent, and its name is unique in the crate."""
+    import json as _json
+    import re as _re
+    out = {}
+    for unit, j in facts.items():
+        fns = j.get("fns", [])
+        by_path = {}
+        for f in fns:
+            by_path.setdefault(f["path"], []).append(f)
+        last = lambda p_: p_.rsplit("::", 1)[-1]
+        renames = []
+        for f in fns:
+            tgt = _forward_target(f)
+            if not tgt or tgt == f["path"] or len(by_path.get(tgt, [])) != 1:
+                continue
+            g = by_path[tgt][0]
+            if g.get("argc") != f.get("argc") or g["path"].rsplit("::", 1)[0] != f["path"].rsplit("::", 1)[0]:
+                continue
+            gname, fname = last(g["path"]), last(f["path"])
+            if not _re.fullmatch(r"[A-Za-z_][A-Za-z0-9_]*", gname) or sum(1 for h in fns if last(h["path"]) == gname) != 1:
+                continue
+            if _forward_target(g):
+                continue
+            # callers of g, in every analysed unit: only f, g and g's closures
+            ok = True
+            needle = '::' + gname + '"'
+            for u2, j2_ in facts.items():
+                for h in j2_.get("fns", []):
+                    if h is f or h is g or h["path"].startswith(g["path"] + "::{closure"):
+                        continue
+                    if needle in _json.dumps(h["blocks"]):
+                        ok = False
+                        break
+                if not ok:
+                    break
+            if ok:
+                renames.append((f, g, gname, fname))
+        if not renames:
+            out[unit] = j
+            continue
+        drop = {id(f) for f, _, _, _ in renames}
+        for f, g, gname, fname in renames:
+            g["vis_pub"], g["reachable"] = f.get("vis_pub"), f.get("reachable")
+            g["forwarded_from"] = gname
+        j2 = dict(j)
+        j2["fns"] = [h for h in fns if id(h) not in drop]
+        txt = _json.dumps(j2)
+        for f, g, gname, fname in renames:
+            txt = _re.sub(r"::" + gname + r"(?![A-Za-z0-9_])", "::" + fname, txt)
+        out[unit] = _json.loads(txt)
+    return out
+
+
 class Program:
     def __init__(self, facts, meta=None):
         global CURRENT
         CURRENT = self
         self.meta = meta or {}
+        facts = elide_forwarders(facts)
         self.units = facts
         self.fns = []
         self.by_npath = defaultdict(list)
